@@ -177,6 +177,8 @@ struct TcpNameserver {
     tcp_last_send_activity: Instant,
     tcp_last_recv_activity: Instant,
     qid2reply: std::collections::HashMap<u16, Responder<super::dnspkt::DNSPkt>>,
+    /* Bytes received from the TCP connection that do not form a whole message yet. */
+    rbuf: Vec<u8>,
 }
 
 impl TcpNameserver {
@@ -188,6 +190,7 @@ impl TcpNameserver {
             tcp_last_send_activity: Instant::now(),
             tcp_last_recv_activity: Instant::now(),
             qid2reply: Default::default(),
+            rbuf: vec![],
         });
 
         tokio::task::spawn(ret.run(rx));
@@ -259,20 +262,30 @@ impl TcpNameserver {
     async fn read_reply(&mut self) -> Result<Vec<u8>, Error> {
         if let Some(ref mut tcp_sock) = self.tcp {
             use tokio::io::AsyncReadExt as _;
-            let mut lbuf = [0u8; 2];
-            tcp_sock
-                .read_exact(&mut lbuf)
-                .await
-                .map_err(Error::FailedToRecv)?;
-            let l = u16::from_be_bytes(lbuf);
-            let mut msg_buf = vec![0u8; l as usize];
-            log::trace!("Reading {} bytes from TCP socket", l);
-            tcp_sock
-                .read_exact(&mut msg_buf[..])
-                .await
-                .map_err(Error::FailedToRecv)?;
-            self.tcp_last_recv_activity = Instant::now();
-            Ok(msg_buf)
+            /* This future is dropped whenever another branch of the select in run() completes
+             * first, so everything read so far has to live in self, not in this future.
+             */
+            loop {
+                if self.rbuf.len() >= 2 {
+                    let l = u16::from_be_bytes([self.rbuf[0], self.rbuf[1]]) as usize;
+                    if self.rbuf.len() >= 2 + l {
+                        let msg_buf = self.rbuf[2..2 + l].to_vec();
+                        self.rbuf.drain(..2 + l);
+                        self.tcp_last_recv_activity = Instant::now();
+                        return Ok(msg_buf);
+                    }
+                }
+                if tcp_sock
+                    .read_buf(&mut self.rbuf)
+                    .await
+                    .map_err(Error::FailedToRecv)?
+                    == 0
+                {
+                    return Err(Error::FailedToRecv(
+                        std::io::ErrorKind::UnexpectedEof.into(),
+                    ));
+                }
+            }
         } else {
             panic!("Read from non existant tcp socket");
         }
@@ -292,6 +305,7 @@ impl TcpNameserver {
 
     fn tcp_teardown(&mut self, err: Error) {
         self.tcp = None;
+        self.rbuf.clear();
         log::trace!("Tearing down {} TCP channel: {}", self.addr, err);
         for (_qid, chan) in self.qid2reply.drain() {
             chan.send(Err(Error::TcpConnection(format!(
